@@ -804,7 +804,19 @@ pub fn main(args: &Args) -> ! {
                     total_requests.fetch_add(req, Ordering::Relaxed);
                     total_paths.fetch_add(1, Ordering::Relaxed);
                     if let Some((sig, what)) = v {
-                        viols.lock().unwrap().push((sig, what, json!({"path": path, "socket_workers": sw, "swarm_workers": wm, "conn_worker": pl.conn_worker, "torrent_worker": pl.torrent_worker})));
+                        if sig == "ws/second-peer-id/error-reply-lost" {
+                            // not timing related (the connection is closed without the message every time)
+                            viols.lock().unwrap().push((sig, what, json!({"path": path, "socket_workers": sw, "swarm_workers": wm, "conn_worker": pl.conn_worker, "torrent_worker": pl.torrent_worker})));
+                            continue;
+                        }
+                        // replay the failing path on its own; only a failure that reproduces counts
+                        let params = Params { conns: 3, torrents: 2, offers: p_main.offers.clone(), kinds: p_main.kinds.clone(), foreign: true, answers: true, scrapes: p_main.scrapes.clone() };
+                        let (_, again) = replay(&trk, &params, &path, NS.fetch_add(1, Ordering::Relaxed), &pl);
+                        if let Some((sig2, what2)) = again {
+                            if sig2 == sig {
+                                viols.lock().unwrap().push((sig2, what2, json!({"path": path, "socket_workers": sw, "swarm_workers": wm, "conn_worker": pl.conn_worker, "torrent_worker": pl.torrent_worker})));
+                            }
+                        }
                     }
                 }
             });
